@@ -1027,6 +1027,7 @@ func TestC20(t *testing.T) {
 	// collector would dominate the budget
 	defer debug.SetGCPercent(debug.SetGCPercent(400))
 
+	nsSamples := 0
 	runCase := func(path string, rg *vkit.Rand, typ byte, agg int, w c20W, all []sk.Pt, lo, hi int64, chunkings func(n int, f func(sizes []int, h *vkit.Rand))) {
 		every, offset := w.Every, w.Offset
 		var before, in, after []sk.Pt
@@ -1067,7 +1068,11 @@ func TestC20(t *testing.T) {
 				break
 			}
 		}
-		if r.WantSample() && len(in) >= 4 && len(in) <= 12 && len(want) >= 2 && caseNo%97 == 5 {
+		// (two of the six evidence samples are left to the month streams)
+		if r.WantSample() && (w.isMonths() || nsSamples < 4) && len(in) >= 4 && len(in) <= 12 && len(want) >= 2 && caseNo%97 == 5 {
+			if !w.isMonths() {
+				nsSamples++
+			}
 			var ws []string
 			for _, w := range want {
 				ws = append(ws, fmt.Sprintf("[%d,%d) -> %d:%s", w.Start, w.Stop, w.T, w.V))
